@@ -1001,3 +1001,147 @@ def rule_transparent_groups(ctx):
                 ctx.check(ok, rule, "%s:%s" % (p.split("::")[-1], node["name"]), "%s asks the pun recogniser about %s" % (p.split("::")[-1], arg[:100]),
                           [bd["loc"][0], node.get("ln")], detail={"fn": p.split("::")[-1], "payload": arg[:60]})
     ctx.floor(rule, "pun recognition sites", n, 3)
+
+
+# str / slice API on comment text, per function: capture (comment.rs) and emission (pretty.rs) must lose nothing but the marker,
+# one separating space and the line terminator, and must agree on the line separator. key: function -> allowed calls
+# "method(literal-or-kind)"; a call outside the set is reported by name.
+TEXT_API = {
+    FORMATTER + "block_comment": {"split(\\n)"},
+    FORMATTER + "marked_comment_lines": {"split(\\n)", "is_empty()"},
+    COMMENT + "CommentBlocks::<'source>::block_text": {"strip_suffix(\\n)", "strip_suffix(\\r)", "split(\\n)", "join(\\n)"},
+    COMMENT + "CommentBlocks::<'source>::line_block": {"join(\\n)"},
+    COMMENT + "CommentBlocks::<'source>::line_text": {"strip_suffix(\\n)", "strip_suffix(\\r)", "strip_prefix($marker)", "strip_prefix( )"},
+    COMMENT + "CommentBlocks::<'source>::comment_token": {"get(..)", "starts_with(--)"},
+    COMMENT + "CommentBlocks::<'source>::same_block": {"get(..)", "chars()"},
+    COMMENT + "CommentBlocks::<'source>::indentation": {"len()", "trim_start_matches(is_horizontal_whitespace)"},
+    COMMENT + "CommentBlocks::<'source>::opening_indentation": {"rfind(\\n)", "chars()", "len()"},
+}
+
+
+# every function that reads the text of a comment: the printers, and the consumer of an attached `--|` block
+TEXT_READERS = {
+    FORMATTER + "comment": "hands the text to marked_comment_lines",
+    FORMATTER + "block_comment": "printer",
+    "zydeco_session::source::program::TextualProgramBuilder::<'graph>::literal": "the text of an @[literal] block becomes a string literal, whole",
+}
+
+
+def _text_calls(h, env):
+    out = []
+    for c in H.walk(h["body"]):
+        if H.kind(c) not in ("Call", "MethodCall"):
+            continue
+        cal = H.callee(c) or ""
+        if not re.search(r"core::str::<impl str>::|alloc::str::.*::join$|slice::<impl \[.*::join$", cal):
+            continue
+        name = cal.split("::")[-1]
+        args = [A.sexpr(a, env) for a in H.call_args(c)[1:]]
+        if name == "get":
+            arg = ".."
+        elif not args:
+            arg = ""
+        elif re.match(r"^\$P\d+$", args[0]):
+            arg = "$marker"
+        elif "::" in args[0]:
+            arg = args[0].split("::")[-1]
+        else:
+            arg = args[0].replace("\n", "\\n").replace("\r", "\\r")
+        out.append(("%s(%s)" % (name, arg), c.get("ln")))
+    return out
+
+
+def rule_comment_text(ctx):
+    rule = "comment-text"
+    facts = ctx.facts
+    ctx.rule(rule, "the text of a comment is captured and printed without loss: (a) the functions that cut comment text out of the source "
+                   "(CommentBlocks::line_text / block_text / line_block) and the ones that print it (marked_comment_lines, block_comment) "
+                   "use only the inventoried str operations: what capture removes is the marker, ONE separating space and the line "
+                   "terminator; the lines are joined and split at the same separator with `split` (not `lines` / `split_terminator`, "
+                   "which drop a final empty line, nor any `trim`); (b) the printer writes marker, a space and the line, or the bare "
+                   "marker for an empty line (the inverse of capture); (c) two comment tokens form one block only when the gap between "
+                   "them is horizontal whitespace (no line break: a blank line separates blocks, and a detached `--|` block is not "
+                   "documentation of the annotation below); (d) every reader of a comment's text is one of the inventoried printers")
+    for fn, allowed in sorted(TEXT_API.items()):
+        h = ctx.need_hir(rule, fn)
+        if h is None:
+            continue
+        ctx.fn(fn)
+        env = A.ArmEnv(); env.strip = True; env.bind_params(h); env.absorb(h["body"])
+        short = fn.split("::")[-1]
+        calls = _text_calls(h, env)
+        for call, ln in calls:
+            ctx.check(call in allowed, rule, "%s:%s" % (short, call), "%s applies `%s` to comment text; the audited operations there are %s: "
+                      "an operation that can drop or merge characters of a comment (lines, trim, split_terminator, a wider strip) loses "
+                      "source text" % (short, call, sorted(allowed)), [facts.bodies()[fn]["loc"][0], ln], detail={"fn": short, "call": call})
+    # (a') separator agreement
+    seps = {}
+    for fn in TEXT_API:
+        h = facts.hir(fn)
+        if h is None:
+            continue
+        env = A.ArmEnv(); env.strip = True; env.bind_params(h); env.absorb(h["body"])
+        for call, _ in _text_calls(h, env):
+            m = re.match(r"^(split|join)\((.*)\)$", call)
+            if m:
+                seps.setdefault(m.group(1), set()).add(m.group(2))
+    ctx.check(seps.get("split") == {"\\n"} and seps.get("join") == {"\\n"}, rule, "separator-agreement",
+              "capture joins comment lines with %s and the printers split at %s" % (sorted(seps.get("join", [])), sorted(seps.get("split", []))),
+              detail=seps and {k: sorted(v) for k, v in seps.items()})
+    # (b) the printer is the inverse of capture
+    fn = FORMATTER + "marked_comment_lines"
+    h = facts.hir(fn)
+    if h is not None:
+        env = A.ArmEnv(); env.strip = True; env.bind_params(h); env.absorb(h["body"])
+        sx = A.sexpr(h["body"], env)
+        each = r"\(each \(core::str::<impl str>::split \$P2 \n\)\)"
+        T = r"pretty::RcDoc::<'a, A>::"
+        want = (r"\(if \(core::str::<impl str>::is_empty %s\) \(%stext \$P1\) \(%sappend \(%sappend \(%stext \$P1\) \(%sspace \)\) \(%stext %s\)\)\)"
+                % (each, T, T, T, T, T, T, each))
+        ctx.check(re.search(want, sx) is not None and "hardline" in sx, rule, "marked_comment_lines:inverse-of-capture",
+                  "marked_comment_lines does not print `marker` for an empty line and `marker SPACE line` otherwise, one line per "
+                  "split item, separated by hard line breaks: %s" % sx[:300], facts.bodies()[fn]["loc"], detail={"body": sx[:400]})
+    # (c) grouping
+    fn = COMMENT + "CommentBlocks::<'source>::same_block"
+    h = facts.hir(fn)
+    if h is not None:
+        env = A.ArmEnv(); env.strip = True; env.bind_params(h); env.absorb(h["body"])
+        sx = A.sexpr(h["body"], env)
+        ok = re.search(r"is_some_and \(core::str::<impl str>::get \(\. \$P0 source\) \(core::ops::range::Range start=\(\. \(\. \(\. \$P1 lexical\) range\) end\) "
+                       r"end=\(\. \(\. \(\. \$P2 lexical\) range\) start\)\)\) \(closure \(core::iter::traits::iterator::Iterator::all "
+                       r"\(core::str::<impl str>::chars \$c0\.0\) [\w:]*::is_horizontal_whitespace\)\)", sx) is not None
+        ctx.check(ok, rule, "same_block:gap-horizontal", "CommentBlocks::same_block does not require every character of the source gap "
+                  "between the two tokens to be horizontal whitespace: %s" % sx[:400], facts.bodies()[fn]["loc"], detail={"body": sx[:500]})
+    fn = COMMENT + "LineSeparation::is_horizontal_whitespace"
+    h = ctx.need_hir(rule, fn)
+    if h is not None:
+        chars = set()
+        for m in H.walk(h["body"]):
+            if H.kind(m) == "Match":
+                for a in m["arms"]:
+                    body = H.peel(a["body"])
+                    if (body.get("lit") or {}).get("bool") in (True, "true"):
+                        chars.add(A.pat_shape(a["pat"]))
+        shape = " ".join(sorted(chars))
+        ctx.check(shape != "" and "\\n" not in shape and "\n" not in shape and "\\r" not in shape and "\r" not in shape, rule,
+                  "is_horizontal_whitespace:no-line-break", "LineSeparation::is_horizontal_whitespace accepts %r: a line break would merge "
+                  "comment blocks separated by blank lines and count a line's terminator as indentation" % shape,
+                  facts.bodies()[fn]["loc"], detail={"accepted": shape})
+    # (d) readers of comment text
+    n = 0
+    for p, bd in sorted(facts.bodies().items()):
+        if "{closure" in p or not p.startswith("zydeco_") or re.search(r" as core::(clone|cmp|fmt|hash)::", p):
+            continue
+        h = facts.hir(p)
+        if h is None:
+            continue
+        for x in H.walk(h["body"]):
+            if H.kind(x) == "Field" and x.get("name") == "text":
+                b = x.get("e") or x.get("base") or {}
+                ty = b.get("ty") if isinstance(b, dict) else ""
+                if re.search(r"comment::(LineComment|TextBlock|BlockComment)\b", ty or ""):
+                    n += 1
+                    ctx.check(p in TEXT_READERS, rule, "reader:%s" % p.split("::")[-1],
+                              "%s reads the text of a comment but is not one of the audited printers" % p, [bd["loc"][0], x.get("ln")],
+                              detail={"reader": p.split("::")[-1]})
+    ctx.floor(rule, "readers of comment text", n, 3)
